@@ -76,12 +76,17 @@ func runUnit(t *testing.T, c caseDef) []string {
 		var m mon
 		pongCb := map[int]func(){}
 		gen := 0
+		sendFails := false
 		if c.maxRetries < 0 {
 			m = inactivity.New(c.period, onInactive)
 		} else {
 			ka := inactivity.NewKeepAlive(uint32(c.maxRetries), onInactive, func(_ *fakeConn, receivePong func()) (func(), error) {
 				gen++
 				g := gen
+				if sendFails {
+					log.add(fmt.Sprintf("pingfail %d", g))
+					return nil, fmt.Errorf("cannot send")
+				}
 				pongCb[g] = receivePong
 				log.add(fmt.Sprintf("ping %d", g))
 				return func() {
@@ -118,9 +123,15 @@ func runUnit(t *testing.T, c caseDef) []string {
 						delete(pongCb, g)
 						cb()
 					}
-				case "tick":
+				case "recvk":
+					at, _ := strconv.ParseInt(f[2], 10, 64)
+					sleepTo(start, at)
+					m.Notify()
+				case "tick", "tickf":
 					at, _ := strconv.ParseInt(f[1], 10, 64)
+					sendFails = f[0] == "tickf"
 					m.CheckInactivity(start.Add(time.Duration(at)), cc)
+					sendFails = false
 				}
 			}()
 			synctest.Wait()
@@ -155,7 +166,8 @@ func TestC18Unit(t *testing.T) {
 		case len(f) == 1 && f[0] == "end":
 			flush(w)
 			fmt.Fprintln(w, "end")
-		case cur != nil && (f[0] == "recv" && len(f) == 2 || f[0] == "pong" && len(f) == 3 || f[0] == "tick" && len(f) == 2):
+		case cur != nil && (f[0] == "recv" && len(f) == 2 || f[0] == "pong" && len(f) == 3 || f[0] == "tick" && len(f) == 2 ||
+			f[0] == "tickf" && len(f) == 2 || f[0] == "recvk" && len(f) == 3):
 			cur.ops = append(cur.ops, f)
 		default:
 			flush(w)
